@@ -563,12 +563,18 @@ impl Database {
         // wait for the update_watchers to release the key
         let (value, version) = {
             let mut db = self.map.write().unwrap();
-            match i32::from_str_radix(
-                &db.get(&key.to_string())
-                    .unwrap_or(&Value::from("0"))
-                    .to_string(),
-                10,
-            ) {
+            // A removed key is kept as a tombstone holding "<Empty>": it counts as absent (0)
+            let current_text = match db.get(&key.to_string()) {
+                Some(old) => {
+                    if old.state == ValueStatus::Deleted {
+                        String::from("0")
+                    } else {
+                        old.to_string()
+                    }
+                }
+                None => String::from("0"),
+            };
+            match i32::from_str_radix(&current_text, 10) {
                 Ok(current) => {
                     let next = (current + inc).to_string();
                     db.insert(key.clone(), Value::from(next.clone()));
